@@ -126,11 +126,11 @@ class AdaptationManager(HasTraits):
         # If the object already provides the given protocol then it is
         # simply returned.
         if self.provides_protocol(type(adaptee), to_protocol):
-            result = adaptee
+            # (also when the object is None)
+            return adaptee
 
         # Otherwise, try adapting the object.
-        else:
-            result = self._adapt(adaptee, to_protocol)
+        result = self._adapt(adaptee, to_protocol)
 
         if result is None:
             if default is AdaptationError:
